@@ -381,7 +381,8 @@ def r11_5(rep: Report) -> None:
         ('raw bytes', {gp: source(gp, 16, 'bytes'), rp: True}, 'bytes'),
     ]
     for label, env, kind in cases:
-        ev = TermEval(class_consts(cls))
+        ev = TermEval.for_class(cls)
+        ev.methods.pop(fn.name, None)
         paths = [p_ for p_ in ev.run(fn, dict(env)) if p_.done == 'return']
         if len(paths) != 1 or not isinstance(paths[0].result, SymStr):
             raise AnalysisError(f'hex_to_le_guid: {label} input not evaluated to one result '
@@ -441,7 +442,10 @@ def r11_6(rep: Report) -> None:
     if len(params) < 3:
         raise AnalysisError('generate_content_key(clz, keyId, keySeed) signature changed')
     kid, seed = params[1], params[2]
-    ev = TermEval(class_consts(cls))
+    # private helpers of the class are evaluated in place; the GUID conversion stays a named term
+    ev = TermEval.for_class(cls)
+    for keep in (fn.name, 'hex_to_le_guid'):
+        ev.methods.pop(keep, None)
     paths = [p_ for p_ in ev.run(fn, {}) if p_.done == 'return']
     if not paths:
         raise AnalysisError('generate_content_key: no returning path evaluated')
